@@ -32,6 +32,8 @@ def powerset(xs):
         for c in itertools.combinations(xs, r):
             yield list(c)
 
+TWAY = {}
+
 def cells(tier):
     out = []
     for s in powerset(MODEL):
@@ -61,12 +63,54 @@ def cells(tier):
         for o in data_all:                      # all but one
             add([x for x in data_all if x != o])
         add(data_all)
+        # Seeded greedy covering selection: a build break that needs a particular on/off setting
+        # of t of the ten features shows only in 1/2^t of the space.  Subsets are added (best of a
+        # seeded random pool each round) until every 6-way on/off interaction (210 x 64 of them)
+        # occurs in a checked configuration, capped at 230 additions; the coverage actually reached
+        # for t = 5, 6, 7 is measured and written to the evidence.
         import random
         rnd = random.Random(SEED)
-        # 160 seeded random subsets: a build break that needs a specific on/off setting of any
-        # five of the ten features (1/32 of the space) is hit with probability 1 - (31/32)^160 > 99 %
-        for _ in range(160):
-            add([x for x in data_all if rnd.random() < 0.5])
+        n = len(data_all)
+        combos6 = list(itertools.combinations(range(n), 6))
+        def inter_ids(mask, combos):
+            ids = []
+            for ci, c in enumerate(combos):
+                v = 0
+                for k, i in enumerate(c):
+                    v |= ((mask >> i) & 1) << k
+                ids.append(ci * (1 << len(c)) + v)
+            return ids
+        def mask_of(s):
+            return sum(1 << data_all.index(x) for x in s)
+        covered6 = set()
+        for (_c, s_) in [o for o in out if o[0] == "nexrad-data"]:
+            covered6.update(inter_ids(mask_of(s_), combos6))
+        total6 = len(combos6) * 64
+        added = 0
+        while len(covered6) < total6 and added < 230:
+            best, best_gain, best_ids = None, -1, None
+            for _ in range(64):
+                m = rnd.getrandbits(n)
+                ids = inter_ids(m, combos6)
+                gain = sum(1 for i in ids if i not in covered6)
+                if gain > best_gain:
+                    best, best_gain, best_ids = m, gain, ids
+            if best_gain <= 0:
+                continue
+            before = len(out)
+            add([x for i, x in enumerate(data_all) if (best >> i) & 1])
+            if len(out) > before:
+                added += 1
+            covered6.update(best_ids)
+        global TWAY
+        TWAY = {}
+        masks = [mask_of(s_) for (c_, s_) in out if c_ == "nexrad-data"]
+        for t in (5, 6, 7):
+            combos = list(itertools.combinations(range(n), t))
+            cov = set()
+            for m in masks:
+                cov.update(inter_ids(m, combos))
+            TWAY[str(t)] = {"interactions": len(combos) * (1 << t), "covered": len(cov)}
     out.append(("nexrad-data", ["aws", "decode", "nexrad-model", "verif-hooks"]))
     return out
 
@@ -173,10 +217,11 @@ def main():
             "samples": [{"crate": c, "features": f, "exit": rc, "seconds": round(dt, 2), "cmd": cmd} for (c, f, rc, _e, cmd, dt) in results[:3] + results[-2:]],
             "exhaustive": True,
             "exhaustive_subdomain": ("model 2^3, decode 2^2, facade 2^3, data 2^10 (named + optional-dependency features) + verif-hooks on" if tier == "thorough"
-                                     else "model 2^3, decode 2^2, facade 2^3, data named-feature powerset 2^2; data optional dependencies: each alone with each named set, every pair alone, all-but-one, all, 160 seeded random subsets (>99% of all 5-way on/off interactions)"),
+                                     else "model 2^3, decode 2^2, facade 2^3, data named-feature powerset 2^2; data optional dependencies: each alone with each named set, every pair alone, all-but-one, all, plus a seeded greedy covering selection until every 6-way on/off interaction of the ten features is covered (measured t-way coverage under observed.t_way_interaction_coverage)"),
             "observed": {"cells_checked": len(results), "cells_built": sum(1 for r in results if r[2] == 0),
                          "per_crate_checked_built": per_crate,
-                         "probe_runs": len(probe_results), "probe_ok": sum(1 for p in probe_results if p[1])},
+                         "probe_runs": len(probe_results), "probe_ok": sum(1 for p in probe_results if p[1]),
+                         "t_way_interaction_coverage": TWAY},
             "known_findings_matched": [s for (s, _, _) in known_hits],
             "violation_signatures": [s for (s, _, _) in fresh][:40],
         },
